@@ -306,5 +306,60 @@ impl Monitor for C16 {
         if s.idx % 25 == 3 {
             self.payment_matrix(w, rep);
         }
+        if s.idx % 40 == 17 {
+            self.reuse_probe(w, s, rep);
+        }
+    }
+}
+
+impl C16 {
+    /// forked: CreatePool naming an identifier that is taken, with the same assets, the same
+    /// assets in another order, other assets, another number of assets and another pool type;
+    /// tried under the faithful token factory and under a lenient one (which, like the
+    /// repository's own test mock, does not refuse a denom that exists) - the pool manager must
+    /// refuse by itself and leave the existing pool as it is
+    fn reuse_probe(&mut self, w: &mut World, s: &Step, rep: &mut Reporter) {
+        let taken: Vec<&crate::ops::PoolView> = s.post.pools.values().filter(|p| p.info.pool_identifier.starts_with("o.")).collect();
+        let p = match taken.choose(&mut self.rng) {
+            Some(p) => *p,
+            None => return,
+        };
+        let bare = p.info.pool_identifier.trim_start_matches("o.").to_string();
+        let snap = w.snapshot();
+        let user = w.users[self.rng.gen_range(0..w.users.len())].clone();
+        let same: Vec<String> = p.info.asset_denoms.clone();
+        let mut reversed = same.clone();
+        reversed.reverse();
+        let all: Vec<String> = w.cfg.denoms.iter().map(|(d, _)| d.clone()).collect();
+        let other: Vec<String> = all.iter().filter(|d| !same.contains(d)).take(2).cloned().collect();
+        let three: Vec<String> = all.iter().take(3).cloned().collect();
+        let variants: Vec<(&str, Vec<String>, PoolType)> = vec![
+            ("same assets", same.clone(), p.info.pool_type.clone()),
+            ("same assets, other order", reversed, p.info.pool_type.clone()),
+            ("other assets", other, PoolType::ConstantProduct),
+            ("three assets", three, PoolType::StableSwap { amp: 100 }),
+        ];
+        for lenient in [false, true] {
+            for (what, denoms, ty) in &variants {
+                if denoms.len() < 2 {
+                    continue;
+                }
+                w.tf_lenient.set(lenient);
+                let dn: Vec<&str> = denoms.iter().map(|d| d.as_str()).collect();
+                let out = w.apply(&crate::wpool::create_pool_op(w, &user, &dn, ty.clone(), crate::wpool::pool_fee(1, 2, 3, &[]), Some(&bare)));
+                w.tf_lenient.set(false);
+                let after = crate::ops::observe(w);
+                let unchanged = after.pools.get(&p.info.pool_identifier).map(|q| q.info == p.info).unwrap_or(false) && after.pools.len() == s.post.pools.len();
+                w.restore(&snap);
+                let abs = hash_of(&(what, lenient, p.is_cp()));
+                if !out.is_ok() && unchanged {
+                    rep.held("identifier_reuse", abs, || json!({"identifier": bare, "request": what, "lenient_token_factory": lenient, "result": out.short()}));
+                } else {
+                    rep.failed("identifier_reuse", None, format!("CreatePool naming the taken identifier {bare} ({what}, lenient token factory: {lenient}): accepted={} and the existing pool is unchanged={unchanged}", out.is_ok()),
+                        witness(json!({"identifier": bare, "request": what, "denoms": denoms, "lenient_token_factory": lenient, "result": out.short()})));
+                }
+            }
+        }
+        w.restore(&snap);
     }
 }
